@@ -18,6 +18,8 @@ if os.path.exists(_prev):
     _pm = json.load(open(_prev))
     if _pm.get("also_caught_by_other_checks"):
         meta["also_caught_by_other_checks"] = _pm["also_caught_by_other_checks"]
+    if _pm.get("round5_first_run"):
+        meta["round5_first_run"] = _pm["round5_first_run"]
     if _pm.get("round4_first_run"):
         meta["round4_first_run"] = _pm["round4_first_run"]
 sid = os.path.basename(d)
